@@ -624,48 +624,54 @@ class Twin:
         return a
 
     def _file_op(self, op):
+        """save(path) / leaving the with-block / entering it / str(): logs the bytes found on disk afterwards."""
+        import pathlib
+
         name = op["op"]
         wl = self.wl
         exc = None
-        a = {"ext": op.get("ext", "gwl"), "haspath": True, "pathkind": op.get("pathkind", "str"), "pre": op.get("pre", "absent")}
+        a = {"ext": op.get("ext", "gwl"), "haspath": True, "pathkind": op.get("pathkind", "str"), "pre": op.get("pre", "absent"),
+             "propagating": bool(op.get("exc", False))}
         fileinfo = {"exists": False, "bytes": [], "lines": []}
         strcp = []
         path = None
+        if name == "save":
+            if self.tmp is None:
+                self.tmp = tempfile.mkdtemp(prefix="rtv_fs_")
+            fname = op.get("fname") or ("saved.gwl" if a["ext"] == "gwl" else "saved.txt")
+            path = os.path.join(self.tmp, fname)
+        elif name == "exit":
+            path = self.path
+            a["haspath"] = path is not None
+        if path is not None:
+            pre = op.get("pre", "absent")
+            if pre == "longer":
+                with open(path, "wb") as f:
+                    f.write(b"X;previous content\r\n" * 4000)
+            elif pre == "shorter":
+                with open(path, "wb") as f:
+                    f.write(b"Q")
+            elif pre == "absent" and os.path.exists(path):
+                os.unlink(path)
         try:
             if name == "enter":
-                wl.__enter__()
+                if wl.__enter__() is not wl:
+                    raise RuntimeError("__enter__ did not return the worklist")
             elif name == "str":
                 strcp = lexer.cps(str(wl))
                 if repr(wl) != str(wl):
                     strcp = [-1]
+            elif name == "save":
+                wl.save(path if a["pathkind"] == "str" else pathlib.Path(path))
             else:
-                if name == "save":
-                    if self.tmp is None:
-                        self.tmp = tempfile.mkdtemp(prefix="rtv_fs_")
-                    fname = op.get("fname") or ("saved.gwl" if a["ext"] == "gwl" else "saved.txt")
-                    path = os.path.join(self.tmp, fname)
-                else:
-                    path = self.path
-                    a["haspath"] = path is not None
-                if path is not None:
-                    pre = op.get("pre", "absent")
-                    if pre == "longer":
-                        with open(path, "wb") as f:
-                            f.write(b"X" * 100000)
-                    elif pre == "shorter":
-                        with open(path, "wb") as f:
-                            f.write(b"Q")
-                    elif os.path.exists(path) and pre == "absent":
-                        os.unlink(path)
-                had_pre = path is not None and op.get("pre", "absent") != "absent"
-                if name == "save":
-                    arg = path if a["pathkind"] == "str" else __import__("pathlib").Path(path)
-                    wl.save(arg)
+                if op.get("exc"):
+                    e = ValueError("propagating")
+                    wl.__exit__(ValueError, e, None)
                 else:
                     wl.__exit__(None, None, None)
         except Exception as e:  # noqa
             exc = e
-        if path is not None and os.path.exists(path) and not (exc is not None and op.get("pre", "absent") != "absent"):
+        if path is not None and os.path.exists(path):
             with open(path, "rb") as f:
                 data = f.read()
             fileinfo["exists"] = True
